@@ -16,7 +16,7 @@ RULE = ('cases = cat over every axis with 2..3 operands (different ranks, a size
         'diagonal by torch.diagonal / tensordot / reshape on harness-contracted dense arrays; bit-equality on int-valued cores. The pad oracle names the '
         'failed region: interior block / fully padded corner / mixed strip. distinct = (op, structure, parameters, dtype); non-trivial = non-zero reference.')
 ASSUMPTIONS = ['pad of an operator with fewer paddings than modes raises RankMismatch (an exception, not a wrong tensor): outside the workload',
-               'fill values are exactly representable (0, 1.5, -2)']
+               'fill values 0, 1.5, -2 (exactly representable: bit-exact comparison on int-valued cores) and 0.3, -1.7e-3 (not representable in any binary format: compared to working precision of the operand dtype)']
 REQUIRED_REACH = ['_extras:cat', '_extras:pad', '_extras:diag', '_tt_base:TT.mprod', '_tt_base:TT.to_ttm', '_tt_base:TT.conj', '_tt_base:TT.clone']
 REQUIRED_COUNTS = {'cat': 1, 'pad/tensor': 1, 'pad/operator': 1, 'diag/tensor->operator': 1, 'diag/operator->tensor': 1, 'mprod/single': 1, 'mprod/list': 1,
                    'to_ttm': 1, 'conj': 1, 'clone': 1, 'exact_comparisons': 100}
@@ -49,7 +49,7 @@ def cases(tier, seed):
                 rng.shuffle(combos)
                 combos = combos[:(40 if not T else 600)]
             for ci, pads in enumerate(combos):
-                for value in (0.0, 1.5, -2.0):
+                for value in (0.0, 1.5, -2.0, 0.3, -1.7e-3):
                     N = [rng.choice((1, 2, 3)) for _ in range(d)]
                     cs.append({'gen': 'pad', 'N': N, 'M': None, 'R': gens.rank_profile(rng, d, ['rand', 'one', 'distinct'][ci % 3], 3),
                                'padding': [list(p) for p in pads], 'value': value, 'dtype': DT[ci % 4], 'vals': 'int'})
@@ -59,7 +59,7 @@ def cases(tier, seed):
         combos = list(itertools.product(widths, repeat=d))
         rng.shuffle(combos)
         for ci, pads in enumerate(combos[:(80 if not T else 1000)]):
-            for value in (0.0, 1.5, -2.0):
+            for value in (0.0, 1.5, -2.0, 0.3, -1.7e-3):
                 cs.append({'gen': 'pad', 'N': [rng.choice((1, 2, 3)) for _ in range(d)], 'M': [rng.choice((1, 2, 3)) for _ in range(d)],
                            'R': gens.rank_profile(rng, d, 'rand', 3), 'padding': [list(p) for p in pads], 'value': value, 'dtype': DT[ci % 4], 'vals': 'int'})
     # diag, mprod, to_ttm, conj, clone
@@ -195,7 +195,7 @@ def run_pad(case, ctx, g):
     if tuple(got.shape) != tuple(ref.shape):
         ctx.viol(key + '/clause=shape', '%s: result shape %s, reference %s' % (what, list(got.shape), list(ref.shape)))
         return
-    exact = gens.exact_ok(dt, gens.abs_bound(x) * 8 + 8)
+    exact = gens.exact_ok(dt, gens.abs_bound(x) * 8 + 8) and float(value * 2).is_integer()
     u, srep = dn.ueps(dt), dn.s_rep(x) + abs(value) * max(1, ref.numel()) ** 0.5
     for name, mask in (('interior-block', interior), ('fully-padded-corner', corner), ('mixed-strip', mixed)):
         if int(mask.sum()) == 0:
